@@ -97,14 +97,19 @@ func (g *Generator) FuncToString(f *model.Function) string {
 		}
 	}
 
+	// In arg style the destination parameter is a pointer whatever the method declared.
+	hookDst := f.Dst
+	if f.DstVarStyle == model.DstVarArg {
+		hookDst.Pointer = true
+	}
 	if f.PreProcess != nil {
-		sb.WriteString(g.ManipulatorToString(f.PreProcess, f.Src, f.Dst, f.AdditionalArgs))
+		sb.WriteString(g.ManipulatorToString(f.PreProcess, f.Src, hookDst, f.AdditionalArgs))
 	}
 	for i := range f.Assignments {
 		sb.WriteString(AssignmentToString(f, f.Assignments[i]))
 	}
 	if f.PostProcess != nil {
-		sb.WriteString(g.ManipulatorToString(f.PostProcess, f.Src, f.Dst, f.AdditionalArgs))
+		sb.WriteString(g.ManipulatorToString(f.PostProcess, f.Src, hookDst, f.AdditionalArgs))
 	}
 	if f.RetError || f.DstVarStyle == model.DstVarReturn {
 		sb.WriteString("\nreturn\n")
